@@ -27,6 +27,7 @@ class Module:
         self.imports = {}     # local name -> ('mod', dotted) | ('obj', mod, name)
         self.defs = {}        # top-level def/class name -> node
         self.assigns = {}     # top-level NAME = value -> value node
+        self.multi = set()    # names assigned more than once (value unknown)
         self._index()
 
     def _package(self):
@@ -60,6 +61,8 @@ class Module:
         elif isinstance(st, ast.Assign):
             for t in st.targets:
                 if isinstance(t, ast.Name):
+                    if t.id in self.assigns:
+                        self.multi.add(t.id)
                     self.assigns[t.id] = st.value
                 elif isinstance(t, ast.Tuple) and isinstance(st.value, ast.Tuple) \
                         and len(t.elts) == len(st.value.elts):
